@@ -434,6 +434,7 @@ func (s *Sim) PfxSettled() (bool, string) {
 // CheckProgress is C19.progress: with no further publisher operation, repeated sync + fetch steps
 // must bring every peer to the end of every reachable publisher's log. Destroys the state.
 func (s *Sim) CheckProgress(maxSteps int) []Finding {
+	s.RunTimers()
 	steps := 0
 	for round := 0; round < 4; round++ {
 		for i, n := range s.Nodes {
@@ -539,6 +540,9 @@ func (sn *Snap) CanonPrefix() string {
 			}
 		}
 		fmt.Fprintf(&b, " routes{%s}", routeStr(dv))
+		if n.Eng.failIn >= 0 || n.Eng.fails > 0 || len(n.Eng.rejected) > 0 {
+			fmt.Fprintf(&b, " mgmtfail{armed %d used %d pending retry %v}", n.Eng.failIn, n.Eng.fails, n.Eng.rejected)
+		}
 		if len(n.CmdProblems) > 0 {
 			fmt.Fprintf(&b, " cmdproblems=%d", len(n.CmdProblems))
 		}
@@ -554,6 +558,9 @@ func (sn *Snap) CanonPrefix() string {
 		}
 		sort.Strings(pk)
 		b.WriteString(strings.Join(pk, ""))
+	}
+	if s.TimersPending() {
+		b.WriteString("\nTIMERS pending")
 	}
 	for d, m := range s.Nodes {
 		if !m.Up {
